@@ -73,7 +73,7 @@ UNITS = [
     cog_unit(7, rt=tau_rt, always_oracle=True),
     cog_unit(8, G, heat=lambda p: (1.0, p['alpha'], p['beta'])),
     cog_unit(9, G, heat=lambda p: (1.0, p['alpha'], p['beta'])),
-    cog_unit(10, G, props=[], always_oracle=True,
+    cog_unit(10, G, always_oracle=True,
              heat=lambda p: (KC * p['lambda0'], p['beta'] + 4 - 1 / (p['geometry'] - 1), p['beta'])),
     cog_unit(11, {'gamma': (1.05, 1.6)}, heat=lambda p: (1.0, p['beta'] + 4 + (p['geometry'] - 2) / (2 - (p['gamma'] - 1) * p['geometry']), p['beta'])),
     cog_unit(12, {'gamma': (0.3, 0.9), 'geometry': [2, 3]},
@@ -82,8 +82,8 @@ UNITS = [
              findings=[dict(id='cog13-energy', refuted='props/C01_cog13_refuted.v', pending=None,
                             what='Cog13 energy equation residual <> 0 (defaults, r=1, t=1)',
                             replay=pde_replay(COGM + 'cog13', 'Cog13', {}, 1.0, 1.0, 2, heat=(KC * 0.1, 2.0, 1.0), eqs=('energy',)))]),
-    cog_unit(14, {'gamma': (1.1, 2.5), 'geometry': [2, 3]}, props=[], always_oracle=True, heat=heat_params),
-    cog_unit(16, {'gamma': (1.1, 2.5), 'b': (0.2, 0.9)}, props=[], always_oracle=True,
+    cog_unit(14, {'gamma': (1.1, 2.5), 'geometry': [2, 3]}, always_oracle=True, heat=heat_params),
+    cog_unit(16, {'gamma': (1.1, 2.5), 'b': (0.2, 0.9)}, always_oracle=True,
              heat=lambda p: (KC * p['lambda0'], 1 - 1 / (p['geometry'] - 1), (1 - 1 / (p['geometry'] - 1)) / 2 - 3)),
     cog_unit(17, {'gamma': (1.1, 2.5), 'alpha': (-3, 0.5), 'beta': (-3, 1)}, heat=heat_params, covers=only_eqs('mass', 'energy'),
              findings=[dict(id='cog17-mass-energy', refuted='props/C01_cog17_refuted.v', pending=None,
